@@ -1,17 +1,19 @@
 import LettreVerif.Proofs.HeaderEnc
 import LettreVerif.Spec.Rfc2047Dec
+import LettreVerif.Proofs.C12Roundtrip
 /-!
 # C12 — Header text survives encoding: a conforming reader recovers the exact string
 
-Full statement (not proved yet; checked by the correspondence on every generated text —
-the RFC 2047 reader of `Spec/Rfc2047Dec.lean` is applied to the real encoded value):
-
-    theorem unstructured_roundtrip (n : Nat) (raw : Bytes) (h : Utf8 raw) :
-        Rfc2047Dec.decode (encodeValue opts n raw) = raw
-
-Proved here: every encoded-word the encoder can emit is valid on its own and decodes to
-exactly the word it carries (`encoded_word_roundtrip`), and the pieces an encoded value is
-made of are well formed (`C02.value_wf`).
+Proved here: `unstructured_roundtrip` — for every text (every Rust string: no four continuation octets in a row),
+whatever the length of the header name, an RFC 5322 + RFC 2047 reader (`Spec/Rfc2047Dec.lean`: unfold, split at
+linear white space, decode `=?utf-8?b?…?=` tokens of at most 75 characters, drop white space between two adjacent
+encoded-words) applied to the encoded value gives back exactly the text, inner and trailing spaces included.
+The proof has a reader side (`Proofs/Rfc2047Dec.lean`: what the reader shows for literal segments and
+encoded-words) and a writer side (`Proofs/Rfc2047Enc.lean`: the folding writer seen through unfolding;
+`rfc2047::encode` writes encoded-words carrying 1..45 octets each, that together carry the text, one space
+apart) joined by an invariant over `HeaderValueEncoder::format`'s loop (`Proofs/C12Roundtrip.lean`). Also:
+every encoded-word the encoder can emit is valid on its own and decodes to exactly the word it carries
+(`encoded_word_roundtrip`), and the pieces an encoded value is made of are well formed (`C02.value_wf`).
 -/
 namespace LV.C12
 open LV LV.HeaderEnc LV.Rfc2047Dec
@@ -58,5 +60,26 @@ theorem encoded_word_roundtrip (word : Bytes) (hne : word ≠ []) (hl : word.len
 /-- The room computed for an encoded-word never exceeds 45 octets. -/
 theorem word_room_le_45 (lineLen : Nat) : (maxLineLen - (10 + 2 + lineLen + 2)) / 4 * 3 ≤ 45 := by
   simp only [maxLineLen]; omega
+
+/-- **Header text survives encoding.** For every text `raw` (a Rust string never has four UTF-8 continuation octets
+    in a row) and every header-name length `n` (it shifts the fold column), the reader recovers exactly `raw`. -/
+theorem unstructured_roundtrip (n : Nat) (raw : Bytes) (h : ContRunsLe3 raw) :
+    Rfc2047Dec.decode (encodeValue opts n raw) = raw :=
+  C12Proof.decode_encodeValue n raw h
+
+/-- non-vacuity: words that need encoding next to words that do not, two spaces between encoded words, a literal
+    `=?…?=` token, a trailing space; the hypothesis holds and the value is what the model computes. -/
+example : ContRunsLe3 (str "né  né =?x?= a ") ∧
+    Rfc2047Dec.decode (encodeValue opts 7 (str "né  né =?x?= a ")) = str "né  né =?x?= a " := by
+  refine ⟨?_, unstructured_roundtrip _ _ ?_⟩ <;>
+  · intro i hi
+    have hlen : (str "né  né =?x?= a ").length = 17 := by decide
+    by_cases h : i < 17
+    · have : i = 0 ∨ i = 1 ∨ i = 2 ∨ i = 3 ∨ i = 4 ∨ i = 5 ∨ i = 6 ∨ i = 7 ∨ i = 8 ∨ i = 9 ∨ i = 10 ∨ i = 11 ∨ i = 12 ∨
+          i = 13 ∨ i = 14 ∨ i = 15 ∨ i = 16 := by omega
+      rcases this with h | h | h | h | h | h | h | h | h | h | h | h | h | h | h | h | h <;> (subst h; revert hi; decide)
+    · have : (str "né  né =?x?= a ").getD i 0 = 0 := by
+        simp [List.getD_eq_getElem?_getD, List.getElem?_eq_none (by omega : (str "né  né =?x?= a ").length ≤ i)]
+      rw [this] at hi; exact absurd hi.1 (by decide)
 
 end LV.C12
